@@ -400,11 +400,25 @@ def exception_to_python(
     except Exception:
         exception = Exception(f"{cls}({exc_msg})")
 
+    # Exception classes may forbid attribute assignment (frozen dataclasses),
+    # so the links are set with the setter of BaseException itself.
     if exc.exc_cause is not None:
-        exception.__cause__ = exception_to_python(exc.exc_cause)
+        BaseException.__setattr__(
+            exception,
+            "__cause__",
+            exception_to_python(exc.exc_cause),
+        )
     if exc.exc_context is not None:
-        exception.__context__ = exception_to_python(exc.exc_context)
+        BaseException.__setattr__(
+            exception,
+            "__context__",
+            exception_to_python(exc.exc_context),
+        )
 
-    exception.__suppress_context__ = exc.exc_suppress_context
+    BaseException.__setattr__(
+        exception,
+        "__suppress_context__",
+        exc.exc_suppress_context,
+    )
 
     return exception
